@@ -254,8 +254,16 @@ func (n *c11pNet) flush() int {
 			n.s.note("flush %d: %s from party %d", n.flushNo, c11pJustString(p.just), p.from)
 		}
 	}
+	var groups []string
+	for _, p := range q {
+		g := n.s.groupOf(p.from)
+		if g != "" {
+			g = fmt.Sprintf("%s/%d", g, p.typ)
+		}
+		groups = append(groups, g)
+	}
 	for _, b := range n.boards {
-		for _, k := range n.s.order(fmt.Sprintf("flush%d", n.flushNo), b.p.id, len(q), true) {
+		for _, k := range n.s.order(fmt.Sprintf("flush%d", n.flushNo), b.p.id, len(q), true, groups) {
 			n.deliver(b, q[k])
 		}
 	}
@@ -386,9 +394,6 @@ func (s *c11pSess) runProto(st *c11pStats) {
 					s.note("BYZ party %d broadcasts %s", p.id, c11pRespString(b))
 				}
 			case "justs":
-				if p.oldIdx < 0 {
-					continue
-				}
 				net.mu.Lock()
 				all := append([]*dkgp.ResponseBundle(nil), net.allResp...)
 				net.mu.Unlock()
